@@ -85,6 +85,41 @@ def differential(R, names, budget, boost=(), boost_budget=0):
     return found, n_eval
 
 
+def emptycell_differential(R):
+    """the nested EmptyCell class of both copies: every operator against the value pools, both operand orders"""
+    import operator
+    gen, ab = I.runtime(), I.abstract_runtime()
+    scal, lists, _ = pools(gen)
+    vals = scal + lists + [(), {}, b'', 0.0, -0.0]
+    ops = ['eq', 'ne', 'lt', 'le', 'gt', 'ge', 'add', 'sub', 'mul', 'truediv']
+    found = []
+    for name in ops:
+        f = getattr(operator, name)
+        for v in vals:
+            for swap in (False, True):
+                def one(o):
+                    e = o.EmptyCell()
+                    try:
+                        r = f(v, e) if swap else f(e, v)
+                        return ('ok', type(r).__name__, repr(r))
+                    except Exception as ex:  # noqa
+                        return ('exc', type(ex).__name__)
+                a, b = one(gen), one(ab)
+                R.count(('EmptyCell', name, repr(v)[:60], swap), True)
+                if a != b and len(found) < 3:
+                    found.append({'helper': 'EmptyCell.__%s__' % name, 'args': '(%s%r)' % ('reflected, ' if swap else '', v), 'generated': a, 'base': b})
+    for extra in ('str', 'repr', 'bool', 'int', 'float', 'hash'):
+        def one2(o):
+            try:
+                return ('ok', repr({'str': str, 'repr': repr, 'bool': bool, 'int': int, 'float': float, 'hash': hash}[extra](o.EmptyCell())))
+            except Exception as ex:  # noqa
+                return ('exc', type(ex).__name__)
+        a, b = one2(gen), one2(ab)
+        if a != b and len(found) < 3:
+            found.append({'helper': 'EmptyCell.%s' % extra, 'args': '()', 'generated': a, 'base': b})
+    return found
+
+
 def differing_helpers():
     """names whose normalised ASTs differ (Python-side mirror of the Coq comparison, used only to direct the search)"""
     import ast
@@ -120,6 +155,8 @@ def run(R, tier):
             budget = 400
     # the helpers whose code differs get a deep search (the obligation already broke: this is the hunt for a concrete input)
     found, n_eval = differential(R, names, budget, boost=set(R.extra.get('helpers_with_different_code', [])), boost_budget=40000)
+    if len(found) < 3:
+        found += emptycell_differential(R)
     R.coverage['samples'] = [{'helper': '_regexp', 'args': "('a?b',)"}, {'helper': '_vlookup', 'args': "(5, [[10,'a'],[20,'b']], 2, True)"}]
     R.extra['helpers_executed'] = len(names)
     R.extra['differential_evaluations'] = n_eval
